@@ -25,6 +25,7 @@ CFGS = ["shared", "separate", "shared_secret", "shared_purge", "separate_purge"]
 # the layout strat stores [datetime, result] (early / soft): not with the pickling serializer of shared_secret (the virtual
 # clock replaces datetime.datetime, which pickle cannot look up)
 STRAT_CFGS = ["shared", "separate", "shared_purge", "separate_purge"]
+OPT_LAYOUTS = ["strat+upper", "strat+lock", "strat+unprot", "strat+tc", "strat+upper+tc", "strat+upper+lock", "strat+upper+unprot+tc"]
 LAYOUTS = ["plain", "templ", "decor", "mut"]
 BIGS = [100, 101, 150, 200, 201, 230]
 
@@ -38,6 +39,8 @@ TRUSTED = [
     "decorator issues, decided from the model state - early / soft deadline stored next to the value, hit counter); that asyncio.gather runs the in-memory commands of hit "
     "in the order listed, and that calls are sequential (background recalculations are awaited before the next command), is part of the tie; the harness's own log takes "
     "'the decorator wrote the key with this call's tags' from 'the body ran'",
+    "wrapping options (upper=True, lock=True, protected=False, time_condition=): which results the decorator's condition accepts is the harness's own reading of "
+    "cashews/wrapper/decorators.py (harness/taghist.py _run_of) handed to the model as Run; whether a body's result was stored is compared through the probes that follow, not at the call",
     "decorator calls: the body is a harness function returning a fresh token (and, in the layout mut, applying a scripted in-place mutation to its list / dict argument); the tags expected of the entry are rendered by the harness from a private copy of the arguments before the call (harness/taghist.py render / fmt: lists joined by ':', dicts as sorted key:value pairs); thunder protection is on (default) but calls are sequential",
 ]
 
@@ -68,7 +71,8 @@ def compare(run: taghist.Runner, answers):
                 d_model = i
             continue
         parts = dict(p.split("=", 1) for p in ans.split(" "))
-        if d_model is None and out != parts["model"]:
+        if d_model is None and out != parts["model"] and not (out.startswith("vs=") and parts["model"].startswith("vs=")):
+            # (`vs=` on both sides: the body of a decorated call ran; whether its result was stored shows in later probes)
             d_model = i
         if i in sets and run.registered and ghost is None and d_model is None:
             die = ",".join(map(str, sets[i][0]))
@@ -170,7 +174,7 @@ def registry_sweep(rng, n: int):
 
     lits = ["k:", "u:", ":p:", ":", "-", "/x/", ":v", "_"]
     fields = ["a", "b", "c"]
-    vals = ["1", "22", "ab", "Z", "7q", "0"]
+    vals = ["1", "22", "ab", "Z", "7q", "0", "x\ny", "\nq"]     # line breaks are text like any other (formatter: re.DOTALL)
     bad_vals = ["1:2", "a-b", "x_y", ":", "p:"]
     checked, mism, amb, ambdiff = 0, [], 0, 0
     for i in range(n):
@@ -221,6 +225,8 @@ def signature(r: taghist.Runner, ds) -> str:
     if ds is None:
         return "?"
     st = r.stats
+    if r.lay.name == "nl" and ds["clause"] == "precise" and "\n" in ds["key_name"]:
+        return "C12:registry-regex-skips-keys-with-line-breaks"
     if ds["clause"] == "complete":
         if st.get("tagged_incr_not_creating"):
             return "incr-tag-ttl"
@@ -273,7 +279,8 @@ def report(chk: Check, cfg, layname, ops, origin):
             f"correspondence broken: implementation differs from the Tags model at step {dm} `{r.eff[dm][0]}` -> impl "
             f"{r.eff[dm][1]}, {answers[dm + 1]}; the property oracle holds on this case",
             dict(replay, broken="correspondence Tags model <-> cashews/wrapper/tags.py, cashews/backends/memory.py (set_add/set_remove/set_pop/_delete), cashews/formatter.py"),
-            signature=None, no_input=True)
+            signature="C12:registry-regex-skips-keys-with-line-breaks" if r.eff[dm][0].startswith("?keytags") and "\\n" in r.eff[dm][1] else None,
+            no_input=True)
     else:
         chk.violation(
             f"harness log and model ghost state disagree on which keys delete_tags must remove / spare at step {gh}",
@@ -323,10 +330,23 @@ def run(chk: Check) -> int:
     nrefresh = chk.budget(520, 6000)
     for i in range(nrefresh):
         cases.append((f"refresh:{i}", STRAT_CFGS[i % len(STRAT_CFGS)], "strat", taghist.gen_refresh(rng, layout("strat"))))
+    # the same functions under the options that change the wrapping path (upper=True, lock=True, protected=False, time_condition=)
+    nopts = chk.budget(420, 4000)
+    for i in range(nopts):
+        lay = OPT_LAYOUTS[i % len(OPT_LAYOUTS)]
+        cfgs = STRAT_CFGS[:2] if "tc" in lay else STRAT_CFGS      # bodies that take time: purge task off
+        cfg = cfgs[(i // len(OPT_LAYOUTS)) % len(cfgs)]
+        gen = taghist.gen_refresh if i % 3 else (lambda rng, l: taghist.gen_strat_history(rng, l, 24))
+        cases.append((f"opts:{i}", cfg, lay, gen(rng, layout(lay))))
     exh3_len = chk.budget(4, 5)
     exh3, nalpha3 = taghist.exhaustive_refresh_cases(layout("strat"), exh3_len)
     for i, ops in enumerate(exh3):
         cases.append((f"exh3:{i}", "shared" if i % 2 else "separate", "strat", ops))
+
+    nnl = chk.budget(150, 2000)
+    for i in range(nnl):
+        gen = taghist.gen_recreate if i % 2 else (lambda rng, l: taghist.gen_history(rng, l, 20))
+        cases.append((f"newline:{i}", CFGS[i % len(CFGS)], "nl", gen(rng, layout("nl"))))
 
     exh_len = chk.budget(3, 4)
     exh, nalpha = exhaustive_cases(exh_len)
@@ -345,6 +365,7 @@ def run(chk: Check) -> int:
     by_layout: dict[str, int] = {}
     by_cfg: dict[str, int] = {}
     by_stream: dict[str, int] = {}
+    by_option: dict[str, int] = {}
     samples = []
     notes = 0
     sampled: dict[str, int] = {}
@@ -355,7 +376,10 @@ def run(chk: Check) -> int:
         results = run_cases([(cfg, lay, ops) for _, cfg, lay, ops in chunk])
         for (origin, cfg, lay, ops), (r, answers) in zip(chunk, results):
             evaluations += 1
-            lname = "exhaustive" if origin.startswith("exh") else lay.split(":")[0]
+            lname = "exhaustive" if origin.startswith("exh") else lay.split(":")[0].split("+")[0]
+            if "+" in lay:
+                for o in lay.split("+")[1:]:
+                    by_option[o] = by_option.get(o, 0) + 1
             if origin.startswith("exh3"):
                 lname = "exhaustive_strat"
             stream = origin.split(":")[0]
@@ -404,7 +428,13 @@ def run(chk: Check) -> int:
             f"correspondence broken (registry layer): get_key_tags derives {reg_mism[0]['registry']} from key {reg_mism[0]['key']!r} of template "
             f"{reg_mism[0]['key_template']!r}, the writer's tag is {reg_mism[0]['writer']} (separator-free values, well separated template)",
             {"mismatches": reg_mism[:5], "broken": "correspondence TagTemplates model <-> cashews/formatter.py template_to_re_pattern / TagsRegistry.get_key_tags"},
-            signature=None, no_input=True)
+            signature="C12:registry-regex-skips-keys-with-line-breaks" if all(any("\n" in v for v in m["values"].values()) for m in reg_mism) else None,
+            no_input=True)
+    probe = taghist.prefix_middleware_probe()
+    if probe is not None:
+        found += 1
+        chk.violation("delete_tags contradicts the property (complete) through the key-prefix middleware: a key written with a tag is still readable after "
+                      f"delete_tags ({probe['observed']}; set_add and set_pop address different tag sets)", probe, signature="C12:add-prefix-middleware-renames-set-add-key")
     if interesting.get("SET_GONE_WHILE_MEMBER_ALIVE") and not found:
         raise HarnessError("a tag set was gone while a carrier was alive, yet no violation was derived - oracle bug")
     if proof is not None:
@@ -422,6 +452,9 @@ def run(chk: Check) -> int:
                 "big:N (N in 100..230 members under one tag, batching) and the malformed stream unreg (unregistered tag, not judged); delete_match "
                 "draws from glob patterns, wildcard-free patterns naming one key exactly and patterns matching nothing; directed streams: "
                 "strat (random histories of repeated decorated calls of a few functions, time, direct writes, every kind of deletion, delete_tags + probes), "
+                "opts (the layout strat with its functions decorated under the options that change the wrapping path: " + ", ".join(OPT_LAYOUTS) + " - upper=True, "
+                "lock=True, protected=False, time_condition=1s with bodies taking 0 / 1 / 1.125 / 2 s; histories from the strat and refresh generators and "
+                "directed simple-decorator cases), newline (layout nl: keys and tags containing line breaks, random and recreate histories), "
                 "refresh (a decorated call, time up to the window in which the decorator RE-WRITES the live entry - early: past early_ttl, soft: past soft_ttl, "
                 "hit / dynamic: update_after hits or more than cache_hits -, one to three re-writes with the same or another ttl, then time to around the "
                 "ORIGINAL deadline and the re-write's deadline, delete_tags of a tag of the call, probes and a further call; companions under the same tag "
@@ -444,6 +477,9 @@ def run(chk: Check) -> int:
                                "a short-lived direct write under the same tag), each followed by delete_tags of the "
                                "per-argument tag and probes; the generated histories of the other layouts are sampled, not exhaustive",
         "cases_by_stream": by_stream,
+        "cases_by_wrapping_option": by_option,
+        "observed_not_judged": taghist.not_judged_probes(),
+        "prefix_middleware_probe": "delete_tags finds the members through add_prefix" if probe is None else probe,
         "delete_tags_commands_judged": deltags_checked,
         "op_histogram": hist,
         "cases_by_layout": by_layout,
